@@ -281,6 +281,31 @@ def boundary_cases(op):
     return out
 
 
+def pair_cases():
+    """Producer/consumer pair product (deterministic): every instruction with a destination produces x5 and x6 from
+    boundary operands, then every consumer form reads them (rs1 = rs2 = x5, and x5 with x6).  Catches results that
+    are numerically right but misbehave when consumed (representation leaks), and stale state between instructions."""
+    mem = {str(B): 0xFFFFFFFF, str(B + 4): 0x8000FF7F, str(B + 8): 0x00010001}
+    regs = {"1": 0xFFFFFFFF, "2": 0x7FFF8001, "3": 3, "8": B}
+    producers = []
+    for op in rv32.R_OPS:
+        producers.append(lambda rd, op=op: [op, rd, 1, 2])
+    for op in rv32.I_OPS:
+        producers.append(lambda rd, op=op: [op, rd, 1, -1])
+    for op in rv32.SH_OPS:
+        producers.append(lambda rd, op=op: [op, rd, 2, 1])
+    for op in rv32.LOAD_OPS:
+        producers.append(lambda rd, op=op: [op, rd, 8, 0])
+        producers.append(lambda rd, op=op: [op, rd, 8, 4])
+    producers += [lambda rd: ["lui", rd, -1], lambda rd: ["auipc", rd, 0x7FFFF]]
+    consumers = [[op, 9, 5, 5] for op in rv32.R_OPS] + [[op, 9, 5, 6] for op in rv32.R_OPS] + [[op, 9, 5, 5] for op in rv32.I_OPS] \
+        + [[op, 9, 5, 31] for op in rv32.SH_OPS] + [[op, 8, 5, 16] for op in rv32.STORE_OPS] \
+        + [[op, 5, 6, 8] for op in rv32.BRANCH_OPS] + [[op, 5, 5, 8] for op in rv32.BRANCH_OPS]
+    for p in producers:
+        for c in consumers:
+            yield {"kind": "prog", "prog": [p(5), p(6), c, ["add", 10, 9, 5]], "regs": regs, "mem": mem, "max": 10}
+
+
 def corpus():
     return [
         {"kind": "single", "ins": ["jalr", 1, 1, 5], "pc": 8, "regs": {"1": 0xFFFFFFFC}, "mem": {}},
@@ -298,6 +323,7 @@ def shards(tier, seed):
     if tier == "quick":
         for i in range(4):
             items.append({"what": "boundary", "ops": rv32.ALL_OPS[i::4]})
+        items.append({"what": "pairs"})
         for i in range(4):
             items.append({"what": "single", "ops": rv32.ALL_OPS[i::4], "n": 45, "seed": seed * 1000 + i})
         for i in range(4):
@@ -305,6 +331,7 @@ def shards(tier, seed):
     else:
         for i in range(16):
             items.append({"what": "boundary", "ops": rv32.ALL_OPS[i::16]})
+        items.append({"what": "pairs"})
         for i in range(46):
             items.append({"what": "single", "ops": [rv32.ALL_OPS[i]], "n": 6000, "seed": seed * 1000 + i})
         for i in range(32):
@@ -318,6 +345,9 @@ def run_shard(item, stats):
         for op in item["ops"]:
             core.run_cases(boundary_cases(op), check, stats, km)
         stats.exhaustive_parts.append("boundary product per mnemonic (deterministic)")
+    elif item["what"] == "pairs":
+        core.run_cases(pair_cases(), check, stats, km)
+        stats.exhaustive_parts.append("producer x consumer instruction pair product (deterministic)")
     elif item["what"] == "single":
         for j, op in enumerate(item["ops"]):
             core.hyp_search(single_case(op), check, stats, item["n"], item["seed"] * 50 + j, km)
